@@ -427,6 +427,16 @@ impl MacroSim {
                     st.model.lookup(&key, got, &mid_snap, now, &mut sinfo);
                     let snap = Self::snapshot_from_listing(st, listing, Some((&key, tag, fp)));
                     st.model.store(&key, tag, fp, mem_aware, &snap, now, &mut sinfo);
+                    // a refresh after a stale verdict must not leave the stale entry behind,
+                    // even when the fresh value is too large to be cached
+                    if info.inv_stale && sinfo.oversize_rejected && listing.contains(&key) {
+                        info.findings.push(l2(
+                            "stale-survived-refresh",
+                            d.id,
+                            format!("the entry for {key:?} that the check rejected is gone after the refresh (the fresh value of {fp} bytes exceeds max_memory {:?} and is not cached)", d.max_memory),
+                            format!("listing still holds {key:?}"),
+                        ));
+                    }
                 } else {
                     // nothing may be stored by this call
                     let had = st.model.entries.contains_key(&key) && found_obs;
